@@ -19,7 +19,7 @@ static void ghost_sha_setup(const IN_gh *g) {
 #if defined(VERIF_LEN_FITS) && defined(VERIF_CASE_NOBLOCK)      /* no block completes */
 #define LEN_CASE(ol, len) V_ASSUME((g_u64)(ol) + (g_u64)(len) < VERIF_BS)
 #elif defined(VERIF_LEN_FITS) && defined(VERIF_CASE_BLOCKS)     /* at least one block completes */
-#define LEN_CASE(ol, len) V_ASSUME((g_u64)(ol) + (g_u64)(len) <= 0xffffffffull && (g_u64)(ol) + (g_u64)(len) >= VERIF_BS)
+#define LEN_CASE(ol, len) V_ASSUME((len) <= SHA_MAX_SINGLE_UPDATE && (g_u64)(ol) + (g_u64)(len) >= VERIF_BS)
 #elif defined(VERIF_LEN_FITS)
 #define LEN_CASE(ol, len) V_ASSUME((g_u64)(ol) + (g_u64)(len) <= 0xffffffffull)
 #elif defined(VERIF_LEN_WRAPS)
@@ -62,7 +62,7 @@ V_INPUT(IN_f256)
 void h_sha256_final(void) {
     IN_f256 in = nondet_IN_f256();
     V_ASSUME(in.c.len < 64 && in.c.tot_len % 64 == 0);
-    TOTAL_CASE(in.c);
+    TOTAL_CASE(in.c); V_ASSUME((g_u64)in.c.tot_len + in.c.len < SHA_MAX_MESSAGE_BYTES);
     sha256_ctx *c = malloc(sizeof(*c)); V_ASSUME(c != NULL); *c = in.c;
     unsigned char *d = malloc(SHA256_DIGEST_SIZE); V_ASSUME(d != NULL);
     ghost_sha_setup(&in.g);
@@ -96,7 +96,7 @@ V_INPUT(IN_f512)
 void h_sha512_final(void) {
     IN_f512 in = nondet_IN_f512();
     V_ASSUME(in.c.len < 128 && in.c.tot_len % 128 == 0);
-    TOTAL_CASE(in.c);
+    TOTAL_CASE(in.c); V_ASSUME((g_u64)in.c.tot_len + in.c.len < SHA_MAX_MESSAGE_BYTES);
     sha512_ctx *c = malloc(sizeof(*c)); V_ASSUME(c != NULL); *c = in.c;
     unsigned char *d = malloc(SHA512_DIGEST_SIZE); V_ASSUME(d != NULL);
     ghost_sha_setup(&in.g);
